@@ -115,7 +115,7 @@ func r10Constructor(c *Ctx, p *Prog, cp string) {
 }
 
 // whichCell: 1 if v derives from the cell at parameter i, 2 for j, 0 unknown / both.
-func whichCell(fn *ssa.Function, v ssa.Value) int {
+func whichCellPE(pe *pathExec, fn *ssa.Function, v ssa.Value) int {
 	pi, pj := fn.Params[1], fn.Params[2]
 	seen := map[ssa.Value]bool{}
 	hasI, hasJ := false, false
@@ -131,6 +131,12 @@ func whichCell(fn *ssa.Function, v ssa.Value) int {
 		}
 		if v == ssa.Value(pj) {
 			hasJ = true
+			return
+		}
+		if pr, ok := v.(*ssa.Parameter); ok && pe != nil {
+			if bound, ok := pe.vals[pr]; ok && bound != v {
+				walk(bound, d+1)
+			}
 			return
 		}
 		if in, ok := v.(ssa.Instruction); ok {
@@ -151,6 +157,11 @@ func whichCell(fn *ssa.Function, v ssa.Value) int {
 	}
 	return 0
 }
+
+func whichCell(fn *ssa.Function, v ssa.Value) int { return whichCellPE(curPE, fn, v) }
+
+// curPE is the executor of the world being evaluated (whichCell follows parameters of inlined helpers through it).
+var curPE *pathExec
 
 func r10Compare(c *Ctx, p *Prog, cp string) {
 	fn := p.Func(cp, "Comparable.Compare")
@@ -271,7 +282,27 @@ func r10Compare(c *Ctx, p *Prog, cp string) {
 				return false, false
 			}
 			pe.oracle = func(pe *pathExec, cond ssa.Value) (bool, bool) { return pe.evalBool(cond, atom) }
+			pe.inline = func(callee *ssa.Function) bool {
+				// helpers that work on values already read (compareNull(xNull, yNull), compareBytes(x, y)); never the
+				// cell accessors and null predicates the oracle interprets itself
+				if callee.Pkg != fn.Pkg || callee.Name() == "isNull" || callee.Name() == "IsNull" {
+					return false
+				}
+				for i, prm := range callee.Params {
+					if isUint32(prm.Type()) {
+						return false
+					}
+					if i == 0 && callee.Signature.Recv() != nil {
+						if n, ok := deref(prm.Type()).(*types.Named); ok && n.Obj().Name() != "Comparable" {
+							return false
+						}
+					}
+				}
+				return true
+			}
+			curPE = pe
 			end, why := pe.run()
+			curPE = nil
 			ret, ok := end.(*ssa.Return)
 			if !ok {
 				if diffCmp != "" {
